@@ -149,7 +149,7 @@ pub fn oracle_r(_ctx: &RunCtx, gp: &GenPoint, log: &mut CaseLog) -> Result<(), S
     if bits * cap <= 1024 {
         let other_bits = if bits == 64 { 32 } else { bits * 2 };
         let mut a = RangeParameters::<RistrettoPoint>::init(other_bits, if cap >= 2 { cap / 2 } else { 2 }, ristretto::create_pedersen_gens_with_extension_degree(ext_of(ext % 6 + 1)))
-            .map_err(|e| format!("{:?}", e))?;
+            .map_err(crate::runner::skip_err)?;
         guarded(|| a.clone_from(&p))?;
         if digest_r(&a) != digest_r(&p) {
             return Err("a parameter object overwritten with clone_from does not hand out the source's generators".into());
@@ -237,13 +237,13 @@ pub fn oracle_r(_ctx: &RunCtx, gp: &GenPoint, log: &mut CaseLog) -> Result<(), S
         use crate::tapx::{tapped, Event};
         use tari_bulletproofs_plus::{commitment_opening::CommitmentOpening, range_proof::{RangeProof, VerifyAction}, range_statement::RangeStatement, range_witness::RangeWitness};
         let r: Vec<Scalar> = (0..ext).map(|k| Scalar::from(k as u64 + 3)).collect();
-        let c = p.pc_gens().commit(&Scalar::ONE, &r).map_err(|e| format!("{:?}", e))?;
-        let st = RangeStatement::init(p.clone(), vec![c], vec![None], None).map_err(|e| format!("{:?}", e))?;
-        let w = RangeWitness::init(vec![CommitmentOpening::new(1, r)]).map_err(|e| format!("{:?}", e))?;
+        let c = p.pc_gens().commit(&Scalar::ONE, &r).map_err(crate::runner::skip_err)?;
+        let st = RangeStatement::init(p.clone(), vec![c], vec![None], None).map_err(crate::runner::skip_err)?;
+        let w = RangeWitness::init(vec![CommitmentOpening::new(1, r)]).map_err(crate::runner::skip_err)?;
         let (proof, pev) = tapped(|| guarded(|| RangeProof::prove_with_rng(&mut merlin::Transcript::new(b"c11"), &st, &w, &mut crate::eng::RngSpec::ChaCha(gp.bulk).make())));
-        let proof = proof?.map_err(|e| format!("{:?}", e))?;
+        let proof = proof?.map_err(crate::runner::skip_err)?;
         let (res, vev) = tapped(|| guarded(|| RangeProof::verify_batch(&mut [merlin::Transcript::new(b"c11")], &[st.clone()], &[proof.clone()], VerifyAction::VerifyOnly)));
-        res?.map_err(|e| format!("{:?}", e))?;
+        res?.map_err(crate::runner::skip_err)?;
         for (who, ev) in [("prover", &pev), ("verifier", &vev)] {
             let hs: Vec<&Vec<u8>> = ev.iter().filter_map(|e| if let Event::Append { label, data } = e { if label == b"H" { Some(data) } else { None } } else { None }).collect();
             let gs: Vec<&Vec<u8>> = ev.iter().filter_map(|e| if let Event::Append { label, data } = e { if label == b"G" { Some(data) } else { None } } else { None }).collect();
@@ -261,7 +261,7 @@ pub fn oracle_r(_ctx: &RunCtx, gp: &GenPoint, log: &mut CaseLog) -> Result<(), S
         }
     }
     // deterministic: second construction, clone, other threads
-    let again = guarded(build)?.map_err(|e| format!("{:?}", e))?;
+    let again = guarded(build)?.map_err(crate::runner::skip_err)?;
     if digest_r(&again) != all || digest_r(&p.clone()) != all {
         return Err("a second construction (or a clone) yields different generators".into());
     }
@@ -291,7 +291,7 @@ pub fn oracle_r(_ctx: &RunCtx, gp: &GenPoint, log: &mut CaseLog) -> Result<(), S
 pub fn oracle_f(_ctx: &RunCtx, gp: &GenPoint, log: &mut CaseLog) -> Result<(), String> {
     F::reset_case();
     let GenPoint { bits, cap, ext, .. } = *gp;
-    let p = guarded(|| RangeParameters::<FP>::init(bits, cap, F::pedersen(ext)))?.map_err(|e| format!("{:?}", e))?;
+    let p = guarded(|| RangeParameters::<FP>::init(bits, cap, F::pedersen(ext)))?.map_err(crate::runner::skip_err)?;
     let gi: Vec<FP> = p.gi_base_iter().cloned().collect();
     let hi: Vec<FP> = p.hi_base_iter().cloned().collect();
     let table = p.precomp();
